@@ -106,6 +106,8 @@ def run(ctx):
     files = sorted(glob.glob(os.path.join(common.VERIF, "corpus", "**", "*.incn"), recursive=True))
     for f in files:
         seeds.append(open(f, encoding="utf-8").read())
+    from lib import gensyntax                           # spec/GenSyntax.tla: rows of the surface grammar as seeds of the mutations
+    seeds += [src for _, src in gensyntax.sample_sources(ctx, 80 if ctx.quick else 800, "c11-syntax")]
     louts = common.replay_batch([{"op": "lex", "src": s} for s in seeds], timeout=1800)
     per = 6 if ctx.quick else 40
     for s, lo in zip(seeds, louts):
@@ -138,6 +140,16 @@ def run(ctx):
         arows = rnd.sample(arows, min(len(arows), 1500))
     for r in arows:
         inputs.append(("type-arity", r["text"].replace("<NL>", "\n") + "\ndef main() -> None:\n    pass\n", None))
+    # (2d) ill-founded declaration graphs (spec/GenDeclGraph.tla): cycles / dangling references through extends, field
+    # types, newtype underlying types, variant payloads, trait signatures, in every declaration order
+    with ctx.timed("tlc_declgraph"):
+        gg = common.tlc(ctx, "GenDeclGraph", cfg="GenDeclGraph_2" if ctx.quick else "GenDeclGraph_3", workers=4, timeout=1800)
+        common.require_tlc_ok(ctx, gg, "GenDeclGraph")
+    grows = gg["cases"]["CASE"]
+    if len(grows) > (650 if ctx.quick else 6000):
+        grows = rnd.sample(grows, 650 if ctx.quick else 6000)
+    for r in grows:
+        inputs.append(("decl-graph", r["text"].replace("<NL>", "\n") + "\ndef main() -> None:\n    pass\n", None))
     # (3) outside the model: atom strings (totality only)
     n_atoms = 2 if ctx.quick else 3
     atom_inputs = ["".join(t) for n in range(1, n_atoms + 1) for t in itertools.product(ATOMS, repeat=n)]
